@@ -32,6 +32,23 @@ model: lean PysphVerif.Model.Interp at Float.  The driver gets, per destination
        is compared bit for bit with the coordinates of the target particles in
        particle order, and the model's un-flattening (`result.shape = self.shape`,
        `squeeze`) of the per-particle values with the returned array.
+       The coordinate arrays come in every dtype a caller may hold them in
+       (float64, float32, int64, int32 numpy arrays, nested Python lists of
+       floats or ints, x/y/z of different dtypes; integer lattices live in a box
+       [0, S]^d, S = 4 or 6, which half the histories use instead of the unit
+       box): the model converts the raveled array to double (`castRavel`) and
+       computes the smoothing length the target particles get
+       (`createTargetH`: `_get_max_h_in_arrays`, `hmax*np.ones_like(xr)` with
+       the ones of the dtype of x); both are compared bit for bit with the
+       target particle array after every (re)creation of the points.
+       Constants of particle arrays are bound too: every source array carries a
+       constant `rho0` (the SPHEvaluator's destination array a constant `gain`)
+       with a value of its own; configurations `sphc` run user-supplied
+       equations that READ them (`Interpolator(equations=[RefDensitySum])`,
+       `SPHEvaluator` with `RefDensitySumGain`); the binding observation lists,
+       per array name, the object ALL of whose property carrays the generated
+       ParticleArrayWrapper holds and the object all of whose CONSTANT carrays it
+       holds (model: `evalObjs`, `evalConsts`).
 oracle: the property statement evaluated with brute-force sums over ALL source
        particles (and their periodic images, computed here, not by the domain
        manager), independent of model, neighbour structure, ghost machinery and
@@ -40,7 +57,16 @@ oracle: the property statement evaluated with brute-force sums over ALL source
        that does not have the property, as the code documents);
        entry idx of the returned array is judged at the point (x[idx], y[idx],
        z[idx]) of the arrays the CALLER passed (logical indexing), not at
-       wherever the implementation put target particle number idx;
+       wherever the implementation put target particle number idx; with an
+       automatic grid (no points given / set_domain) at the point the public
+       ip.x[idx], ip.y[idx], ip.z[idx] name; about half the Gaussian-kernel
+       Interpolators are built with the constructor's default kernel=None; the
+       smoothing length of the target points is the largest h of the real source
+       particles at the time the points were set, computed here from the
+       history (a double, whatever the dtype of the coordinates), NOT the h
+       the implementation gave its target particles; for `sphc` the density is
+       the constant rho0 the history gave the array CURRENTLY bound and the
+       factor the constant of the destination array currently bound;
        tolerance 1e-9 relative to sum |terms| (the statement's "value defined by
        its method" up to rounding): Shepard = weighted mean, inside [min,max] of
        contributing values, constant reproduced, 0.0 where nothing is in range;
@@ -106,8 +132,14 @@ def configs(tier):
     # the first group, real=False)
     add('order1', 1, 2, 'CubicSpline', periodic=True)
     add('shepard', 2, 2, 'CubicSpline', api='sphe')
-    add('sph', 1, 2, 'Gaussian', api='sphe')
+    # user-supplied equations that read CONSTANTS of the source arrays (and, with
+    # SPHEvaluator, of the destination array): Interpolator(equations=...) and
+    # SPHEvaluator with the probe equations below
+    add('sphc', 2, 2, 'CubicSpline')
+    add('sphc', 1, 2, 'Gaussian', api='sphe')
     if tier != 'quick':
+        add('sph', 1, 2, 'Gaussian', api='sphe')
+        add('sphc', 2, 2, 'Gaussian', periodic=True)
         add('shepard', 2, 2, 'SuperGaussian')
         add('shepard', 1, 3, 'WendlandQuinticC4', periodic=True)
         add('shepard', 3, 1, 'QuinticSpline', periodic=True)
@@ -137,6 +169,31 @@ def reset_group_names(cfg):
     allc = configs('thorough')
     base = 100 * (1 + allc.index(cfg)) if cfg in allc else 0
     EQ.group_counter = itertools.count(base)
+
+
+from pysph.sph.equation import Equation     # noqa: E402 (import only: nothing of pysph runs in the parent)
+
+
+class RefDensitySum(Equation):
+    """probe equation for Interpolator(equations=[...]): the SPH sum with the
+    reference density rho0, a CONSTANT of the source array, as density"""
+
+    def initialize(self, d_idx, d_prop):
+        d_prop[d_idx] = 0.0
+
+    def loop(self, d_idx, s_idx, s_m, s_rho0, s_temp_prop, d_prop, WIJ):
+        d_prop[d_idx] += s_m[s_idx]/s_rho0[0]*WIJ*s_temp_prop[s_idx]
+
+
+class RefDensitySumGain(Equation):
+    """probe equation for SPHEvaluator: the same sum times `gain`, a constant of
+    the DESTINATION array"""
+
+    def initialize(self, d_idx, d_prop):
+        d_prop[d_idx] = 0.0
+
+    def loop(self, d_idx, s_idx, s_m, s_rho0, s_temp_prop, d_prop, d_gain, WIJ):
+        d_prop[d_idx] += d_gain[0]*s_m[s_idx]/s_rho0[0]*WIJ*s_temp_prop[s_idx]
 
 
 def kernel_obj(name, dim):
@@ -188,7 +245,10 @@ def gen_array(rng, cfg, name, n, h0, region, lin, const, has, tagged, prefill=0.
         # valid input
         rho = None
     sp = {'name': name, 'x': pos[0], 'y': pos[1], 'z': pos[2], 'h': h,
-          'm': m, 'rho': rho, 'props': props, 'tag': tag}
+          'm': m, 'rho': rho, 'props': props, 'tag': tag,
+          # constants of the array (pa.add_constant): every array of a history
+          # carries its own value
+          'consts': {'rho0': rng.uniform(0.5, 2.0)}}
     if rng.random() < prefill:
         # the array arrives with a used `temp_prop` (an earlier Interpolator
         # worked on it): far from every property's range, never zero
@@ -308,9 +368,9 @@ def gen_layout(rng, shape, kind=None):
 
 
 def strided(a, L):
-    """(view, mem, shape, strides, offset): a numpy array with the logical
-    contents of `a` laid out in the 1-D buffer `mem` as `L` says; strides and
-    offset in elements"""
+    """(view, mem, shape, strides, offset): a numpy array (of the dtype of `a`)
+    with the logical contents of `a` laid out in the 1-D buffer `mem` as `L`
+    says; strides and offset in elements"""
     shape = list(a.shape)
     nd = len(shape)
     strides = [0] * nd
@@ -324,16 +384,60 @@ def strided(a, L):
         offset += strides[ax] * (shape[ax] - 1)
         strides[ax] = -strides[ax]
     # unused memory holds a far-away coordinate, not a valid-looking one
-    mem = np.full(total, 777.0)
+    mem = np.full(total, 777, dtype=a.dtype)
     view = np.lib.stride_tricks.as_strided(mem[offset:], shape=shape,
-                                           strides=[8 * t for t in strides])
+                                           strides=[a.dtype.itemsize * t for t in strides])
     view[...] = a
     if not np.array_equal(view, a):
         raise SystemExit('harness: strided view does not hold the points')
     return view, mem, shape, strides, offset
 
 
-def gen_points(rng, cfg, arrays, allow_grid=True):
+DTYPES = {'float64': 'f64', 'float32': 'f32', 'int64': 'i64', 'int32': 'i32'}
+
+
+def gen_dtype(rng, cfg, ints_ok, kind=None):
+    """how the caller holds the explicit target points: numpy arrays of which
+    dtype (per coordinate), or (nested) Python lists of floats / ints.  Integer
+    typed coordinates (np.mgrid[1:6, 1:6], np.arange(n), lists of ints) need a
+    box wider than the unit box (`ints_ok`)."""
+    if kind is None:
+        if rng.random() < 0.5:
+            return None, 'ndarray'          # float64 arrays
+        kinds = ['float32', 'floatlist', 'mixed']
+        if ints_ok:
+            kinds += ['int64', 'int64', 'int32', 'intlist', 'intlist', 'mixed']
+        kind = rng.choice(kinds)
+    if kind == 'float64':
+        return None, 'ndarray'
+    if kind in ('floatlist', 'intlist'):
+        dt = 'float64' if kind == 'floatlist' else 'int64'
+        return {key: dt for key in 'xyz'}, 'list'
+    if kind == 'mixed':
+        pool = ['float64', 'float32'] + (['int64', 'int32'] if ints_ok else [])
+        while True:
+            d = {key: rng.choice(pool) for key in 'xyz'}
+            if len(set(d[key] for key in 'xyz'[:cfg['dim']])) > 1 or cfg['dim'] == 1:
+                return d, 'ndarray'
+    return {key: kind for key in 'xyz'}, 'ndarray'
+
+
+def quantize_points(pts):
+    """make the coordinates values of their dtype (after scaling): integers for
+    the integer dtypes, float32 values for float32.  The spec keeps them as
+    Python floats: they are the caller's points, exactly"""
+    dt = pts.get('dtype')
+    if pts.get('kind') != 'explicit' or not dt:
+        return pts
+    for key in 'xyz':
+        if dt[key].startswith('int'):
+            pts[key] = [float(round(v)) for v in pts[key]]
+        elif dt[key] == 'float32':
+            pts[key] = [float(np.float32(v)) for v in pts[key]]
+    return pts
+
+
+def gen_points(rng, cfg, arrays, allow_grid=True, ints_ok=False, dtype=None):
     dim = cfg['dim']
     if allow_grid and cfg['api'] == 'interp' and rng.random() < 0.25:
         return {'kind': 'grid', 'num_points': rng.choice([8, 12, 20, 27])}
@@ -365,6 +469,13 @@ def gen_points(rng, cfg, arrays, allow_grid=True):
             out['layout'] = {key: L for key in 'xyz'}
         else:       # x, y, z laid out differently
             out['layout'] = {key: gen_layout(rng, sh) for key in 'xyz'}
+        out['dtype'], out['container'] = gen_dtype(rng, cfg, ints_ok, dtype)
+        if out['container'] == 'list':
+            del out['layout']       # a nested list has no memory layout
+    else:
+        # SPHEvaluator: the destination array is the caller's; it carries a
+        # constant the probe equation reads
+        out['gain'] = rng.uniform(0.5, 2.0)
     return out
 
 
@@ -398,8 +509,74 @@ def gen_interp_seq(rng, cfg):
     return ops
 
 
+def gen_mutate(rng, cfg, cur, lin, const, psets, k=None):
+    """an in-place change of source array k (same number of particles, same
+    tags; positions, h, m, rho, property values and the constants change)"""
+    if k is None:
+        k = rng.randrange(len(cur))
+    old = cur[k]
+    new = gen_arrays(rng, cfg, lin, const, psets)[k]
+    n = len(old['x'])
+    new = resize_spec(rng, new, n, old['tag'], lin)
+    if k == 0:
+        pin_corners(new, cfg, lin)
+    upd = rng.random() < 0.85
+    # update(update_domain=False) re-bins with the OLD cell size: only
+    # legitimate when the smoothing lengths did not change
+    same_h = rng.random() < 0.4
+    if same_h:
+        new['h'] = list(old['h'])
+    return {'op': 'mutate', 'array': k, 'new': new, 'update': upd,
+            'update_domain': (not same_h) or rng.random() < 0.4}
+
+
+def scale_case(case, S):
+    """the same history in the box [0, S]^d instead of the unit box: positions,
+    smoothing lengths, domain bounds times S, masses times S^d (so that m/rho*W
+    and the summation density keep their size), slopes of the linear field
+    divided by S (so that the property values stay what they are)"""
+    case['scale'] = S
+    d = case['cfg']['dim']
+    done = set()
+
+    def spec(sp):
+        if id(sp) in done:
+            return
+        done.add(id(sp))
+        for key in ('x', 'y', 'z', 'h'):
+            sp[key] = [v * S for v in sp[key]]
+        sp['m'] = [v * S ** d for v in sp['m']]
+
+    def points(q):
+        if id(q) in done or q.get('kind') != 'explicit':
+            return
+        done.add(id(q))
+        for key in 'xyz':
+            q[key] = [v * S for v in q[key]]
+        quantize_points(q)
+    for sp in case['arrays']:
+        spec(sp)
+    points(case['points'])
+    for op in case['ops']:
+        if op['op'] == 'mutate':
+            spec(op['new'])
+        elif op['op'] == 'newarrays':
+            for sp in op['arrays']:
+                spec(sp)
+        elif op['op'] == 'newpoints':
+            points(op['points'])
+        elif op['op'] == 'setdomain':
+            op['bounds'] = [v * S for v in op['bounds']]
+    case['lin'] = [case['lin'][0]] + [v / S for v in case['lin'][1:]]
+    return case
+
+
 def gen_case(rng, cfg, nops=None, psets=None, small=False, prefill=None,
-             force_tagged=None, force_norho=None):
+             force_tagged=None, force_norho=None, scale=None, dtype=None):
+    if scale is None:
+        # half the histories live in a box that is not the unit box
+        scale = rng.choice([1.0, 1.0, 4.0, 6.0])
+    ints_ok = scale >= 3.0
     lin = [rng.uniform(-1, 1), rng.uniform(-2, 2),
            rng.uniform(-2, 2) if cfg['dim'] > 1 else 0.0,
            rng.uniform(-2, 2) if cfg['dim'] > 2 else 0.0]
@@ -412,7 +589,11 @@ def gen_case(rng, cfg, nops=None, psets=None, small=False, prefill=None,
     arrays = gen_arrays(rng, cfg, lin, const, psets, prefill, small,
                         force_tagged, force_norho)
     case = {'cfg': cfg, 'lin': lin, 'const': const, 'psets': psets, 'arrays': arrays,
-            'points': gen_points(rng, cfg, arrays), 'ops': []}
+            # the constructor's default `kernel=None` (= Gaussian of the inferred
+            # dimension) instead of an explicit kernel object
+            'default_kernel': (cfg['kernel'] == 'Gaussian' and cfg['api'] == 'interp'
+                               and rng.random() < 0.5),
+            'points': gen_points(rng, cfg, arrays, ints_ok=ints_ok, dtype=dtype), 'ops': []}
     cur = arrays
     ops = case['ops']
     ops.extend(gen_interp_seq(rng, cfg))
@@ -423,31 +604,18 @@ def gen_case(rng, cfg, nops=None, psets=None, small=False, prefill=None,
             ops.extend(gen_interp_seq(rng, cfg))
             continue
         if kind == 'mutate':
-            k = rng.randrange(len(cur))
-            old = cur[k]
-            new = gen_arrays(rng, cfg, lin, const, psets)[k]
-            # same number of particles and tags: an in-place change
-            n = len(old['x'])
-            new = resize_spec(rng, new, n, old['tag'], lin)
-            if k == 0:
-                pin_corners(new, cfg, lin)
-            upd = rng.random() < 0.85
-            # update(update_domain=False) re-bins with the OLD cell size: only
-            # legitimate when the smoothing lengths did not change
-            same_h = rng.random() < 0.4
-            if same_h:
-                new['h'] = list(old['h'])
-            ops.append({'op': 'mutate', 'array': k, 'new': new, 'update': upd,
-                        'update_domain': (not same_h) or rng.random() < 0.4})
+            op = gen_mutate(rng, cfg, cur, lin, const, psets)
+            ops.append(op)
             cur = list(cur)
-            cur[k] = new
+            cur[op['array']] = op['new']
         elif kind == 'newarrays':
             cur = gen_arrays(rng, cfg, lin, const, psets, prefill, small,
                              force_tagged, force_norho)
             ops.append({'op': 'newarrays', 'arrays': cur})
         elif kind == 'newpoints':
             ops.append({'op': 'newpoints',
-                        'points': gen_points(rng, cfg, cur, allow_grid=False)})
+                        'points': gen_points(rng, cfg, cur, allow_grid=False,
+                                             ints_ok=ints_ok, dtype=dtype)})
         elif kind == 'movepoints':
             ops.append({'op': 'movepoints', 'seed': rng.randrange(10 ** 6),
                         'update': rng.random() < 0.85})
@@ -467,7 +635,7 @@ def gen_case(rng, cfg, nops=None, psets=None, small=False, prefill=None,
                     shape.append(1)
             ops.append({'op': 'setdomain', 'bounds': b, 'shape': shape})
         ops.extend(gen_interp_seq(rng, cfg))
-    return case
+    return scale_case(case, scale)
 
 
 def pin_corners(sp, cfg, lin):
@@ -480,7 +648,8 @@ def pin_corners(sp, cfg, lin):
 
 
 def resize_spec(rng, sp, n, tag, lin):
-    out = {'name': sp['name'], 'tag': list(tag), 'props': {}}
+    out = {'name': sp['name'], 'tag': list(tag), 'props': {},
+           'consts': dict(sp.get('consts') or {})}
     for key in ('x', 'y', 'z', 'h', 'm', 'rho'):
         v = sp[key]
         if v is None:
@@ -515,6 +684,8 @@ def make_pa(sp):
         # an array that was used by another Interpolator before
         pa.add_property('temp_prop')
         pa.get_carray('temp_prop').get_npy_array()[:] = sp['temp0']
+    for nm, v in sorted((sp.get('consts') or {}).items()):
+        pa.add_constant(nm, v)
     pa.get_carray('tag').get_npy_array()[:] = sp['tag']
     pa.align_particles()
     return pa
@@ -536,6 +707,9 @@ def set_in_place(pa, sp):
         if nm in pa.properties:
             arr = pa.get(nm, only_real_particles=False)
             arr[:len(order)] = [v[i] for i in order]
+    for nm, v in (sp.get('consts') or {}).items():
+        # a constant changed in place (same carray, new value)
+        pa.get_carray(nm).get_npy_array()[:] = v
     return nreal
 
 
@@ -568,12 +742,15 @@ class Session:
         self.views = {}
         self.expect_pts = None  # the points in logical order (None: as in the
         #                         target array: automatic grid / moved points)
+        self.S = float(case.get('scale', 1.0))
+        self.h_dtype = 'float64'    # dtype of the caller's x array
+        self.h_expect = None        # smoothing length the target points must get
         if cfg['periodic']:
             from pysph.base.nnps import DomainManager
             kw = {}
             for key in 'xyz'[:cfg['dim']]:
                 kw[key + 'min'] = 0.0
-                kw[key + 'max'] = 1.0
+                kw[key + 'max'] = self.S
                 kw['periodic_in_' + key] = True
             self.domain = DomainManager(**kw)
         self.srcs = [make_pa(sp) for sp in case['arrays']]
@@ -590,10 +767,20 @@ class Session:
                 kw = self.points_kw(pts)
             else:
                 kw = {'num_points': pts['num_points']}
-            self.ip = impl_call('Interpolator()', Interpolator, self.srcs, kernel=self.kernel,
-                                domain_manager=self.domain,
-                                method=cfg['method'], **kw)
+            if cfg['method'] == 'sphc':
+                # the `equations=` option: user-supplied equations (the target
+                # array is made as for 'sph': one `prop` per point)
+                kw['equations'] = [RefDensitySum(dest='interpolate',
+                                                 sources=[a.name for a in self.srcs])]
+                kw['method'] = 'sph'
+            else:
+                kw['method'] = cfg['method']
+            self.ip = impl_call('Interpolator()', Interpolator, self.srcs,
+                                kernel=None if case.get('default_kernel') else self.kernel,
+                                domain_manager=self.domain, **kw)
             self.label(self.ip.pa)
+            if pts['kind'] != 'explicit':
+                self.grid_points()
             self.ravel_lines('construction')
             self.blines.append('B init arrays=%s pts=%d' % (
                 H.ilist(self.labels[id(a)] for a in self.srcs),
@@ -630,14 +817,36 @@ class Session:
         self.views = {}
         n = len(pts['x'])
         self.expect_pts = [(pts['x'][i], pts['y'][i], pts['z'][i]) for i in range(n)]
+        dts = pts.get('dtype') or {}
+        self.h_dtype = dts.get('x', 'float64')   # h = hmax*np.ones_like(x.ravel())
         for key in 'xyz'[:d]:
-            a = np.array(pts[key], dtype=float)
+            dt = dts.get(key, 'float64')
+            f = np.array(pts[key], dtype=float)
+            a = f.astype({'float64': np.float64, 'float32': np.float32,
+                          'int64': np.int64, 'int32': np.int32}[dt])
+            if not np.array_equal(a.astype(float), f):
+                raise SystemExit('harness: points are not %s values' % dt)
             if pts.get('shape'):
                 a = a.reshape(pts['shape'])
-            if pts.get('layout'):
+            if pts.get('container') == 'list':
+                # (nested) Python lists of ints / floats: np.asarray makes a C
+                # ordered int64 / float64 array of them
+                c = np.ascontiguousarray(a)
+                st = [1] * c.ndim
+                for ax in range(c.ndim - 2, -1, -1):
+                    st[ax] = st[ax + 1] * c.shape[ax + 1]
+                self.views[key] = (c.ravel(), list(c.shape), st, 0, 'list', dt)
+                a = c.tolist()
+            elif pts.get('layout'):
                 L = pts['layout'][key]
                 a, mem, shape, strides, offset = strided(a, L)
-                self.views[key] = (mem, shape, strides, offset, L['kind'])
+                self.views[key] = (mem, shape, strides, offset, L['kind'], dt)
+            else:
+                c = np.ascontiguousarray(a)
+                st = [1] * c.ndim
+                for ax in range(c.ndim - 2, -1, -1):
+                    st[ax] = st[ax + 1] * c.shape[ax + 1]
+                self.views[key] = (c.ravel(), list(c.shape), st, 0, 'C', dt)
             kw[key] = a
         # a coordinate that is not passed: zeros shaped like the others
         self.expect_pts = [tuple(q[k] if k < d else 0.0 for k in range(3))
@@ -649,14 +858,59 @@ class Session:
         model's `ravel` of each array as it lies in memory against the
         coordinates of the target particles, in particle order"""
         pa = self.ip.pa
-        for key, (mem, shape, strides, offset, kind) in sorted(self.views.items()):
-            line = 'R shape=%s strides=%s offset=%d buf=%s' % (
-                H.ilist(shape), ','.join(str(t) for t in strides), offset,
-                H.flist(mem.tolist()))
+        for key, (mem, shape, strides, offset, kind, dt) in sorted(self.views.items()):
+            if dt.startswith('int'):
+                buf = ','.join(str(int(v)) for v in mem.tolist()) or '_'
+            else:
+                buf = H.flist([float(v) for v in mem.tolist()])
+            line = 'R dtype=%s shape=%s strides=%s offset=%d buf=%s' % (
+                DTYPES[dt], H.ilist(shape), ','.join(str(t) for t in strides), offset, buf)
             # (with a periodic domain the target array got ghosts appended)
             got = pa.get(key, only_real_particles=False)[:pa.num_real_particles].tolist()
             self.rlines.append((line, 'flat ' + H.flist(got),
-                                where + ' target particles: ' + key, kind))
+                                where + ' target particles: ' + key,
+                                ['points-layout:%s' % kind,
+                                 'points-dtype:%s%s' % (dt, '(list)' if kind == 'list' else '')]))
+        self.h_line(where)
+
+    def grid_points(self):
+        """automatic grid (constructor without points / set_domain): the caller
+        learns where entry idx of the result lies from the public ip.x, ip.y,
+        ip.z (shaped like the result); the oracle judges the result there, not
+        at the target particles in particle order"""
+        ip = self.ip
+        try:
+            xs = [np.asarray(getattr(ip, key), dtype=float) for key in 'xyz']
+            ok = xs[0].shape == xs[1].shape == xs[2].shape
+        except Exception:       # noqa
+            ok = False
+        if not ok:
+            raise ImplError('Interpolator.x/.y/.z do not describe a grid: %r'
+                            % ([np.shape(getattr(ip, key, None)) for key in 'xyz'],))
+        self.expect_pts = [(float(xs[0][idx]), float(xs[1][idx]), float(xs[2][idx]))
+                           for idx in np.ndindex(*xs[0].shape)]
+
+    def real_h(self):
+        """the smoothing lengths of the real particles of every source array, from
+        the history (not read back from the implementation)"""
+        return [[h for h, t in zip(sp['h'], sp['tag']) if t == 0] for sp in self.specs]
+
+    def h_line(self, where):
+        """after the target particles were created: every one of them must have
+        got the largest smoothing length of the (real) source particles, as a
+        double, whatever the dtype of the caller's coordinate arrays.  The model
+        gets the sources' h and the dtype; the oracle keeps the value."""
+        hs = self.real_h()
+        self.h_expect = max(max(h) for h in hs)
+        pa = self.ip.pa
+        n = int(pa.num_real_particles)
+        dt = self.h_dtype if self.views else 'float64'   # automatic grid: np.mgrid, float64
+        line = 'H dtype=%s n=%d lens=%s h=%s' % (
+            DTYPES[dt], n, H.ilist(len(h) for h in hs),
+            H.flist([v for h in hs for v in h]))
+        got = pa.get('h', only_real_particles=False)[:n].tolist()
+        self.rlines.append((line, 'h ' + H.flist(got), where + ' target particles: h',
+                            ['target-h:points-dtype-%s' % dt]))
 
     def equations(self):
         from pysph.tools import interpolator as I
@@ -669,6 +923,8 @@ class Session:
                'splash_norm': I.SPLASHInterpolatePropertyNormalized}
         if m in one:
             return [one[m](dest='interpolate', sources=names)]
+        if m == 'sphc':
+            return [RefDensitySumGain(dest='interpolate', sources=names)]
         d = self.cfg['dim']
         return [
             Group(equations=[SummationDensity(dest=n, sources=names)
@@ -698,6 +954,10 @@ class Session:
             pa.add_property('prop')
             if m == 'splash_norm':
                 pa.add_property('unity')
+        # a constant of the destination array (read by the probe equation as
+        # d_gain[0]); every destination array of a history has its own value
+        self.gain = float(pts.get('gain', 1.0))
+        pa.add_constant('gain', self.gain)
         for a in self.srcs:
             if 'temp_prop' not in a.properties:
                 a.add_property('temp_prop')
@@ -727,11 +987,30 @@ class Session:
             result = lab(self.dest)
             nn = self.ev.nnps
         ce = fe.c_acceleration_eval
-        evaluated = [lab(getattr(ce, nm).array) for nm in names]
+        evaluated, consts = [], []
+        for nm in names:
+            w = getattr(ce, nm)
+            # what the compiled loops read are the carrays the wrapper holds, one
+            # attribute per property / constant: the object all of whose
+            # property carrays (resp. constant carrays) the wrapper holds
+            ev = co = 0
+            for o in self.objs:
+                if getattr(o, 'name', None) != nm or not hasattr(o, 'get_carray'):
+                    continue
+                if all(getattr(w, q) is o.get_carray(q) for q in o.properties):
+                    ev = lab(o)
+                if all(getattr(w, q) is o.get_carray(q) for q in o.constants):
+                    # (an array without constants: the one the wrapper points to)
+                    if o.constants or o is w.array:
+                        co = lab(o)
+            if ev != lab(w.array):
+                ev = 0          # `array` and the property carrays disagree
+            evaluated.append(ev)
+            consts.append(co)
         binned = [lab(a) for a in nn.particles]
         same = (ce.nnps is nn) and (fe.nnps is nn)
         return {'filled': filled, 'evaluated': evaluated, 'binned': binned,
-                'result': result, 'evalnnps': bool(same)}
+                'result': result, 'consts': consts, 'evalnnps': bool(same)}
 
     # -- operations
     def apply(self, op):
@@ -741,6 +1020,8 @@ class Session:
         if kind == 'mutate':
             pa = self.srcs[op['array']]
             set_in_place(pa, op['new'])
+            self.specs = list(self.specs)
+            self.specs[op['array']] = op['new']
             self.blines.append('B mutate o=%d' % self.labels[id(pa)])
             self.bobs.append(self.bind_obs())
             self.bstale.append(True)
@@ -753,7 +1034,11 @@ class Session:
             lo, hi = (0.02, 0.98) if cfg['periodic'] else (-0.05, 1.05)
             for key in 'xyz'[:cfg['dim']]:
                 arr = pa.get(key, only_real_particles=False)
-                arr[:n] = [rng.uniform(lo, hi) for _ in range(n)]
+                arr[:n] = [self.S * rng.uniform(lo, hi) for _ in range(n)]
+            if cfg['api'] != 'interp':
+                # ... and the destination array's constant changes in place
+                self.gain = rng.uniform(0.5, 2.0)
+                pa.get_carray('gain').get_npy_array()[:] = self.gain
             # from now on the points are what the target array holds
             self.expect_pts = None
             self.blines.append('B mutate o=%d' % self.labels[id(pa)])
@@ -803,6 +1088,8 @@ class Session:
             self.views = {}
             impl_call('set_domain', self.ip.set_domain, tuple(op['bounds']), tuple(op['shape']))
             self.label(self.ip.pa)
+            self.grid_points()
+            self.h_line('set_domain')
             self.blines.append('B setpts p=%d' % self.labels[id(self.ip.pa)])
             self.bobs.append(self.bind_obs())
             self.bstale.append(False)
@@ -884,10 +1171,25 @@ def snapshot(ses):
         # the source values of the requested property (NOT what the
         # implementation staged in temp_prop)
         d['f'] = ses.pre[len(srcs)]['want'].tolist()
+        if ses.cfg['method'] == 'sphc':
+            # the probe equation's density is the CONSTANT rho0 of the array the
+            # neighbour lives in: the value the history gave the array currently
+            # bound (not read back through the evaluator)
+            rho0 = float(ses.specs[len(srcs)]['consts']['rho0'])
+            if a.get_carray('rho0').get_npy_array().tolist() != [rho0]:
+                raise SystemExit('harness: source array does not hold its constant')
+            d['rho'] = [rho0] * len(d['x'])
         srcs.append(d)
     t = ses.target
     tgt = {k: t.get(k, only_real_particles=False).tolist() for k in ('x', 'y', 'z', 'h')}
     tgt['nreal'] = int(t.num_real_particles)
+    if ses.cfg['api'] == 'interp':
+        # the smoothing length the points must have got (largest source h at the
+        # time they were set), not the one the implementation gave them
+        tgt['h'] = [ses.h_expect] * len(tgt['h'])
+        tgt['gain'] = 1.0
+    else:
+        tgt['gain'] = ses.gain
     if ses.cfg['method'] == 'order1':
         tgt['moment'] = t.get('moment', only_real_particles=False).reshape(-1, 16).tolist()
         tgt['p_sph'] = t.get('p_sph', only_real_particles=False).reshape(-1, 4).tolist()
@@ -955,20 +1257,20 @@ def records_for(k, method, dpos, hd, srcs, listed, want_grad, rhos=None):
     return flat, nl, ne
 
 
-def shifts_for(cfg):
+def shifts_for(cfg, S=1.0):
     if not cfg['periodic']:
         return [(0.0, 0.0, 0.0)]
-    rng3 = [(-1.0, 0.0, 1.0) if k < cfg['dim'] else (0.0,) for k in range(3)]
+    rng3 = [(-S, 0.0, S) if k < cfg['dim'] else (0.0,) for k in range(3)]
     return [(a, b, c) for a in rng3[0] for b in rng3[1] for c in rng3[2]]
 
 
-def brute(k, cfg, method, dpos, hd, srcs):
+def brute(k, cfg, method, dpos, hd, srcs, S=1.0):
     """brute-force contributions for one destination: list of (w, V, f) over all
     particles the property's sums range over: every particle present in the
     arrays; with a periodic domain the REAL particles and their images (the
     ghosts the domain manager made are ignored)."""
     out = []
-    sh = shifts_for(cfg)
+    sh = shifts_for(cfg, S)
     for s in srcs:
         n = len(s['x'])
         for j in range(n):
@@ -982,10 +1284,10 @@ def brute(k, cfg, method, dpos, hd, srcs):
     return out
 
 
-def wrap_pos(cfg, p):
+def wrap_pos(cfg, p, S=1.0):
     if not cfg['periodic']:
         return p
-    return tuple(p[k] - math.floor(p[k]) if k < cfg['dim'] else p[k] for k in range(3))
+    return tuple(p[k] - S * math.floor(p[k] / S) if k < cfg['dim'] else p[k] for k in range(3))
 
 
 def observe(ses, op, res, where):
@@ -1045,7 +1347,8 @@ def observe(ses, op, res, where):
                              '%d target points, one per element of x' % len(exp_pts),
                              '%d target particles' % nt))
         return out
-    c('oracle-points:%s' % ('callers-arrays' if exp_pts is not None else 'target-array'))
+    c('oracle-points:%s' % ('moved-target-array' if exp_pts is None else
+                            'callers-arrays' if ses.views else 'public-grid-x-y-z'))
     listed = nbr_lists(ses, narr, nt, narr)
     want_grad = method == 'order1'
     rhos = None
@@ -1082,6 +1385,11 @@ def observe(ses, op, res, where):
                                              H.flist(tgt['p_sph'][i]))
             out['expect'].append(('order1', where + ' point %d' % i, exp,
                                   {'comp': op['comp'], 'res': res[i]}))
+        elif method == 'sphc':
+            out['lines'].append('pt method=sphc tol=%s gain=%s nb=%s' % (
+                H.fbits(TOL12), H.fbits(tgt['gain']), H.flist(flat)))
+            out['expect'].append((method, where + ' point %d' % i,
+                                  'val ' + H.fbits(res[i]), None))
         else:
             out['lines'].append('pt method=%s tol=%s nb=%s' % (
                 method, H.fbits(TOL12), H.flist(flat)))
@@ -1091,13 +1399,13 @@ def observe(ses, op, res, where):
     o1src = order1_sources(ses, srcs) if method == 'order1' else None
     for i in range(nt):
         pt = exp_pts[i] if exp_pts is not None else (tgt['x'][i], tgt['y'][i], tgt['z'][i])
-        dpos = wrap_pos(cfg, pt)
+        dpos = wrap_pos(cfg, pt, ses.S)
         hd = tgt['h'][i]
         got = res[i]
         if method == 'order1':
             oracle_order1(ses, op, i, dpos, hd, o1src, tgt, got, out, c)
             continue
-        con = brute(k, cfg, method, dpos, hd, srcs)
+        con = brute(k, cfg, method, dpos, hd, srcs, ses.S)
         fs = [f for (_, _, f) in con]
         fmax = max([abs(f) for f in fs] + [0.0])
         if method == 'shepard':
@@ -1141,16 +1449,22 @@ def observe(ses, op, res, where):
                     if not (abs(got - lo) <= 1e-12 * max(abs(lo), 1e-300)):
                         out['fails'].append((fail_key(ses, 'shepard', 'constant'),
                                              'constant %r reproduced at point %d' % (lo, i), repr(got)))
-        elif method in ('sph', 'splash'):
-            want = sum(v * w * f for (w, v, f) in con)
-            sabs = sum(abs(v * w * f) for (w, v, f) in con)
+        elif method in ('sph', 'splash', 'sphc'):
+            # (sphc: V = m/rho0 with rho0 the constant of the source array
+            # CURRENTLY bound, times the constant `gain` of the destination)
+            g = tgt['gain'] if method == 'sphc' else 1.0
+            want = g * sum(v * w * f for (w, v, f) in con)
+            sabs = abs(g) * sum(abs(v * w * f) for (w, v, f) in con)
             c('oracle:documented-sum')
             if not con and got != 0.0:
                 out['fails'].append(('C14:%s:zero-out-of-range' % method,
                                      '0.0 at point %d' % i, repr(got)))
             elif not (abs(got - want) <= REL * sabs + 1e-300):
                 out['fails'].append((fail_key(ses, method, 'documented-sum'),
-                                     'sum (m/rho) W f = %r at point %d' % (want, i), repr(got)))
+                                     '%s = %r at point %d' % (
+                                         'gain * sum (m/rho0) W f with the constants of the arrays '
+                                         'currently set' if method == 'sphc' else 'sum (m/rho) W f',
+                                         want, i), repr(got)))
         elif method == 'splash_norm':
             den = sum(v * w for (w, v, f) in con)
             num = sum(v * w * f for (w, v, f) in con)
@@ -1187,7 +1501,7 @@ def order1_sources(ses, srcs):
     Returns a list of (pos, h, V, f)."""
     cfg = ses.cfg
     k = ses.kernel
-    sh = shifts_for(cfg)
+    sh = shifts_for(cfg, ses.S)
     P = []      # (pos, h, m, f) of every particle the sums range over
     base = []   # index into P of the unshifted copy
     for s in srcs:
@@ -1400,23 +1714,27 @@ def run_case(case, R_like):
         raise SystemExit('model driver answered %d lines for %d' % (len(outl), len(lines)))
     nb = len(ses.blines)
     # ---- the flattening of the caller's coordinate arrays into target particles
-    for (ln, exp, where, kind), m in zip(ses.rlines, outl[nb:nb + len(ses.rlines)]):
+    for (ln, exp, where, kinds), m in zip(ses.rlines, outl[nb:nb + len(ses.rlines)]):
         rec['evals'] += 1
-        c('points-layout:%s' % kind)
+        for kk in kinds:
+            c(kk)
         if m != exp:
             rec['disagreements'].append({'case': short(case), 'where': where,
                                          'model': m[:400], 'impl': exp[:400]})
     outl = outl[:nb] + outl[nb + len(ses.rlines):]
     for ln, m, ob, st in zip(ses.blines, outl[:nb], ses.bobs, ses.bstale):
         if cfg['api'] == 'interp':
-            want = 'filled=%s evaluated=%s binned=%s result=%d' % (
+            want = 'filled=%s evaluated=%s binned=%s result=%d consts=%s' % (
                 H.ilist(ob['filled']), H.ilist(ob['evaluated']), H.ilist(ob['binned']),
-                ob['result'])
+                ob['result'], H.ilist(ob['consts']))
             mm = m.rsplit(' current=', 1)[0]
         else:
             # SPHEvaluator fills nothing itself: only what it evaluates / binned
-            want = 'evaluated=%s binned=%s' % (H.ilist(ob['evaluated']), H.ilist(ob['binned']))
-            mm = ' '.join(t for t in m.split(' ') if t.startswith(('evaluated=', 'binned=')))
+            # and whose constants it reads
+            want = 'evaluated=%s binned=%s consts=%s' % (
+                H.ilist(ob['evaluated']), H.ilist(ob['binned']), H.ilist(ob['consts']))
+            mm = ' '.join(t for t in m.split(' ')
+                          if t.startswith(('evaluated=', 'binned=', 'consts=')))
         if mm != want or not ob['evalnnps']:
             rec['disagreements'].append({'case': short(case), 'where': 'bindings after ' + ln,
                                          'model': m, 'impl': want + ' evalnnps=%s' % ob['evalnnps']})
@@ -1560,7 +1878,7 @@ def worker(args):
     os._exit(0)
 
 
-MIN_RANDOM = 4
+MIN_RANDOM = 3
 
 
 def budgets(tier, njobs, nproc, search=False):
@@ -1574,7 +1892,7 @@ def budgets(tier, njobs, nproc, search=False):
     if search:
         total *= 0.6
     soft = total / waves
-    return soft, 2.0 * soft + 240.0
+    return soft, 2.0 * soft + 420.0
 
 
 def run_jobs(jobs, outdir, nproc, hard=None):
@@ -1636,7 +1954,7 @@ def corpus(cfg):
         # 3-D order1, several interpolate calls on the same points: p_sph[3]
         # was not reset between calls (fixed by 34a0735)
         rng = random.Random(14)
-        case = gen_case(rng, cfg, nops=0)
+        case = gen_case(rng, cfg, nops=0, scale=1.0, dtype='float64')
         case['points'] = {'kind': 'explicit', 'x': [0.4, 0.55, 0.5], 'y': [0.5, 0.45, 0.6],
                           'z': [0.5, 0.5, 0.42], 'shape': None}
         case['ops'] = [{'op': 'interp', 'prop': 'lin', 'comp': 0},
@@ -1659,7 +1977,7 @@ def corpus(cfg):
                'z': [0.5, 0.45, 0.6] if cfg['dim'] > 2 else [0.0] * 3, 'shape': None}
         # (a) a property every array has, then one only the first array has
         case = gen_case(random.Random(1401), cfg, nops=0, psets=psets, small=small,
-                        prefill=0.0)
+                        prefill=0.0, scale=1.0, dtype='float64')
         case['points'] = mid
         case['ops'] = [{'op': 'interp', 'prop': 'p', 'comp': 0},
                        {'op': 'interp', 'prop': 'q', 'comp': 0},
@@ -1669,7 +1987,8 @@ def corpus(cfg):
         # through update_particle_arrays; the first call already asks for a
         # property that some arrays lack
         rng = random.Random(1402)
-        case = gen_case(rng, cfg, nops=0, psets=psets, small=small, prefill=1.0)
+        case = gen_case(rng, cfg, nops=0, psets=psets, small=small, prefill=1.0,
+                        scale=1.0, dtype='float64')
         case['points'] = mid
         again = gen_arrays(rng, cfg, case['lin'], case['const'], psets, 1.0, small)
         case['ops'] = [{'op': 'interp', 'prop': 'q', 'comp': 0},
@@ -1685,7 +2004,7 @@ def corpus(cfg):
         # Fortran-ordered 2x3 at construction, then set_interpolation_points
         # with an axis-permuted 2x2x3 whose x, y, z are laid out differently.
         rng = random.Random(1403)
-        case = gen_case(rng, cfg, nops=0, prefill=0.0)
+        case = gen_case(rng, cfg, nops=0, prefill=0.0, scale=1.0, dtype='float64')
         d = cfg['dim']
         lo, hi = (0.1, 0.9)
 
@@ -1713,7 +2032,8 @@ def corpus(cfg):
         # volume m/rho was infinite and interpolate returned NaN near them.)
         rng = random.Random(1404)
         case = gen_case(rng, cfg, nops=0, prefill=0.0,
-                        force_tagged=not cfg['periodic'], force_norho=True)
+                        force_tagged=not cfg['periodic'], force_norho=True,
+                        scale=1.0, dtype='float64')
         d = cfg['dim']
         n = 8
         q = {'kind': 'explicit', 'shape': None}
@@ -1735,6 +2055,73 @@ def corpus(cfg):
                        {'op': 'newarrays', 'arrays': again},
                        {'op': 'interp', 'prop': 'p', 'comp': 0},
                        {'op': 'interp', 'prop': 'c', 'comp': d}]
+        out.append(case)
+    if cfg['api'] == 'interp':
+        # the dtype of the caller's coordinate arrays must not matter: an integer
+        # lattice given as an int64 N-d array (np.mgrid[1:4, 1:4]) at
+        # construction, then float32 points, a Python list of ints, arrays of
+        # mixed dtypes (x int32).  (round-3 seed A: `h = np.full_like(xr, hmax)`
+        # gave the target particles h = int(hmax) = 0.)  Box [0, 4]^d.
+        rng = random.Random(1405)
+        S = 4.0
+        case = gen_case(rng, cfg, nops=0, prefill=0.0, scale=S, dtype='float64')
+        d = cfg['dim']
+        axes = {1: [[1, 2, 3]], 2: [[1, 2, 3], [1, 2, 3]], 3: [[1, 3], [1, 2], [2, 3]]}[d]
+        shape = [len(a) for a in axes]
+        n = int(np.prod(shape))
+
+        def lattice(shaped, dts, container='ndarray'):
+            q = {'kind': 'explicit', 'shape': shape if shaped else None,
+                 'dtype': dts, 'container': container}
+            for k, key in enumerate('xyz'):
+                q[key] = [float(axes[k][idx[k]]) if k < d else 0.0
+                          for idx in np.ndindex(*shape)]
+            if container != 'list':
+                L = gen_layout(rng, shape if shaped else [n], 'F' if shaped and d > 1 else 'C')
+                q['layout'] = {key: L for key in 'xyz'}
+            return q
+
+        def scattered(dts):
+            q = {'kind': 'explicit', 'shape': None, 'dtype': dts, 'container': 'ndarray',
+                 'layout': {key: gen_layout(rng, [6], 'C') for key in 'xyz'}}
+            for k, key in enumerate('xyz'):
+                q[key] = [S * rng.uniform(0.15, 0.85) if k < d else 0.0 for _ in range(6)]
+            return quantize_points(q)
+        case['points'] = lattice(True, {key: 'int64' for key in 'xyz'})
+        prop = 'lin' if cfg['method'] == 'order1' else 'p'
+        io = {'op': 'interp', 'prop': prop, 'comp': 0}
+        case['ops'] = [
+            dict(io),
+            {'op': 'newpoints', 'points': scattered({key: 'float32' for key in 'xyz'})},
+            dict(io),
+            {'op': 'newpoints', 'points': lattice(False, {key: 'int64' for key in 'xyz'}, 'list')},
+            dict(io),
+            {'op': 'newpoints', 'points': scattered({'x': 'int32', 'y': 'float64', 'z': 'float32'})},
+            dict(io)]
+        out.append(case)
+    if cfg['method'] == 'sphc':
+        # equations that read array constants: the arrays are replaced by arrays
+        # with other constants, a constant is changed in place, the points (the
+        # SPHEvaluator's destination array with ITS constant) are replaced.
+        # (round-3 seed B: ParticleArrayWrapper bound the constants only when
+        # constructed; after update_particle_arrays the old arrays' were read.)
+        rng = random.Random(1406)
+        case = gen_case(rng, cfg, nops=0, prefill=0.0, scale=1.0, dtype='float64')
+        psets = case['psets']
+        again = gen_arrays(rng, cfg, case['lin'], case['const'], psets)
+        mut = gen_mutate(rng, cfg, again, case['lin'], case['const'], psets, k=0)
+        mut['update'] = True
+        third = gen_arrays(rng, cfg, case['lin'], case['const'], psets)
+        io = {'op': 'interp', 'prop': 'p', 'comp': 0}
+        case['ops'] = [
+            dict(io),
+            {'op': 'newarrays', 'arrays': again}, dict(io),
+            mut, dict(io),
+            {'op': 'newpoints', 'points': gen_points(rng, cfg, again, allow_grid=False,
+                                                     dtype='float64')},
+            dict(io),
+            {'op': 'movepoints', 'seed': 77, 'update': True}, dict(io),
+            {'op': 'newarrays', 'arrays': third}, {'op': 'interp', 'prop': 'q', 'comp': 0}]
         out.append(case)
     return out
 
@@ -1785,9 +2172,12 @@ def main():
         'then 1-16 operations among interpolate of various properties in sequence / in-place '
         'change + update / update_particle_arrays / set_interpolation_points / set_domain / '
         'moved points; explicit points as 1-d to 4-d arrays in C / Fortran / permuted / strided / '
-        'reversed memory layouts; order1 arrays with or without rho, with Remote-tagged particles '
-        'and periodic ghosts); evaluations = destination points (and, for order1, summation-density '
-        'values; per interpolate call and source array the staged temp_prop) compared bit for '
+        'reversed memory layouts and as float64 / float32 / int64 / int32 arrays or Python lists, '
+        'in the unit box or a box of side 4 or 6; every array with constants of its own, read by '
+        'user-supplied equations in the sphc configurations; order1 arrays with or without rho, '
+        'with Remote-tagged particles and periodic ghosts); evaluations = destination points (and, for order1, summation-density '
+        'values; per interpolate call and source array the staged temp_prop; per creation of '
+        'target points their coordinates and smoothing lengths) compared bit for '
         'bit with the model, plus one per history; distinct = distinct history JSON; non-trivial = some '
         'destination point with at least two listed neighbours')
     if a.replay:
@@ -1817,7 +2207,7 @@ def main():
         ncases = int(os.environ['C14_NCASES'])
     if a.broken:
         ncases *= 2
-    nproc = min(len(cfgs), max(2, (os.cpu_count() or 4) - 1), 16)
+    nproc = min(len(cfgs), max(2, os.cpu_count() or 4), 16)
     soft, hard = budgets(a.tier, len(cfgs), nproc)
     jobs = [(cfg, a.seed, ncases, corpus(cfg), soft) for cfg in cfgs]
     outdir = os.path.join(a.work, 'c14-results')
